@@ -20,7 +20,7 @@ RULE = ("schemas of depth <= 4 and width <= 6 with identifier keys whose option 
         "and mutated states: the state afterwards must equal 'supplied and not ignored options set to their normal "
         "form and marked user-defined, every other value and flag untouched'; non-trivial = >= 4 paths and >= 1 "
         "command line applied; distinct = distinct (schema, state, command line)")
-REQUIRED = ("membership_negatives", "schema_iterations_compared", "parsed_arguments_reused_with_another_ignore_list", "parser_from_schema_method", "sections_nested_in_a_section_of_the_same_name", "mode_helper_replaces_an_earlier_field", "rejected_command_lines_applied_again", "schemas_with_names_of_schema_methods_or_odd_underscores", "schema_grown_after_enumeration", "paths_checked", "dotted_assignments_checked", "parsers_compared", "overrides_compared", "argv:empty",
+REQUIRED = ("number_fields_declared_with_the_base_class", "membership_negatives", "schema_iterations_compared", "parsed_arguments_reused_with_another_ignore_list", "parser_from_schema_method", "sections_nested_in_a_section_of_the_same_name", "mode_helper_replaces_an_earlier_field", "rejected_command_lines_applied_again", "schemas_with_names_of_schema_methods_or_odd_underscores", "schema_grown_after_enumeration", "paths_checked", "dotted_assignments_checked", "parsers_compared", "overrides_compared", "argv:empty",
             "argv:bool-on", "argv:bool-off", "argv:bool-both-switches", "argv:value", "argv:repeated", "argv:invalid", "ignore:str", "ignore:list",
             "state:mutated", "depth>=3")
 ASSUMPTIONS = ["enumeration is judged on root schemas / configurations; membership is demanded of stored fields only",
@@ -53,7 +53,9 @@ def generate(rng, ctx):
                 b["params"]["default"] = rng.random() < 0.7
             schema["fields"].append(b)
         # names that coincide with public names of the Schema class, names with doubled / trailing underscores
-        odd = ["validator", "make_type", "instance_method", "get_all_fields", "generate_argparse_parser", "dry__run", "class_", "x__y_"]
+        odd = ["validator", "make_type", "instance_method", "get_all_fields", "generate_argparse_parser", "dry__run", "class_", "x__y_",
+               # identifiers with a leading underscore (declared by item assignment)
+               "_ttl", "_internal", "__x"]
         if rng.random() < 0.35:
             nodes = [(spec.node_at(schema, spec.split_parent(p)[0]) if "." in p else schema, nd)
                      for p, nd in spec.walk(schema) if "[]" not in p]
@@ -90,6 +92,10 @@ def generate(rng, ctx):
                 opts.add(o)
         if ok:
             break
+    for _p, nd in spec.walk(schema):
+        if nd["kind"] == "field" and nd["family"] in ("int", "float") and rng.random() < 0.2:
+            nd["params"]["base_class"] = True  # declared as NumberField(int, ...) / NumberField(float, ...)
+            schema["number_base_class"] = True
     env = gen.GEN_ENV
     state_ops = [op for op in history.gen_ops(rng, schema, env, rng.choice([0, 0, 4, 8]), bad=0.0) if op["op"] == "set" and not op.get("dynamic")]
     leaves = [(p, nd) for p, nd in spec.walk(schema) if "[]" not in p and nd["kind"] == "field"]
@@ -211,6 +217,15 @@ def _expected_view(root):
     return root
 
 
+def _chain(cfg, path):
+    """Chained attribute access; a segment spelled like an attribute of the configuration class itself can only be
+    reached by item access."""
+    cur = cfg
+    for seg in path.split("."):
+        cur = cur[seg] if hasattr(type(cur), seg) else getattr(cur, seg)
+    return cur
+
+
 def run(case, ctx, res):
     cc = ctx.cc
     env = env_of(ctx)
@@ -220,6 +235,8 @@ def run(case, ctx, res):
         res.count("sections_nested_in_a_section_of_the_same_name")
     if case["schema"].get("helper_collision"):
         res.count("mode_helper_replaces_an_earlier_field")
+    if case["schema"].get("number_base_class"):
+        res.count("number_fields_declared_with_the_base_class")
     if case["schema"].get("odd_names"):
         res.count("schemas_with_names_of_schema_methods_or_odd_underscores")
     def check_names(stage):
@@ -245,7 +262,7 @@ def run(case, ctx, res):
                 continue
             try:
                 via_item = cfg[path]
-                via_attr = spec.get_path(cfg, path)
+                via_attr = _chain(cfg, path)
             except Exception as exc:
                 res.viol("M-names", "config-lookup:" + fam, "reading %r raised %r" % (path, exc))
                 return None
@@ -318,7 +335,7 @@ def run(case, ctx, res):
             res.viol("M-names", "dotted-assignment", "cfg[%r] = %r raised %r" % (path, v, exc))
             return
         res.count("dotted_assignments_checked")
-        d = model.match(norm, plain(spec.get_path(cfg, path)))
+        d = model.match(norm, plain(_chain(cfg, path)))
         if d:
             res.viol("M-names", "dotted-assignment", "after cfg[%r] = %r attribute access gives: %s" % (path, v, d))
             return
